@@ -346,16 +346,20 @@ def handleFatal : Handler := fun i o => do
   let sync ← jint o "sync"
   let other ← jint o "other"
   -- repaired model: exactly one error iff something fails; the sync event only if nothing fails
-  let mErr : Int := if k > 0 then 1 else 0
-  let mSync : Int := if k > 0 then 0 else 1
+  -- mode "" = Forbidden (fatal); "notfound": the resource is not registered — its informers are stopped, the others sync, no error;
+  -- "servererr": retried for ever — no error, and no sync event while an informer cannot list
+  let mode := (jstr i "mode").toOption.getD ""
+  let fatal := k > 0 && mode == ""
+  let mErr : Int := if fatal then 1 else 0
+  let mSync : Int := if fatal || (k > 0 && mode == "servererr") then 0 else 1
   let m := Json.mkObj [("panic", false), ("closed", true), ("errors", mErr), ("sync", mSync), ("other", (0 : Nat))]
   -- the pinned code (no once-guard) may emit any positive number of error events: not a disagreement with the unguarded model
   let rest := !panic && closed && sync == mSync && other == 0
-  let agree := rest && (if k > 0 then errors ≥ 1 else errors == 0)
+  let agree := rest && (if fatal then errors ≥ 1 else errors == 0)
   let spec := rest && errors == mErr
   let region := if !spec && rest && errors > 1 then some "C16.multi-error" else none
   return { model := m, agree := agree, spec := spec, nontrivial := k ≥ 2,
-           tags := [s!"fatal:forbidden{k}", s!"fatal:errors{errors}"] ++
+           tags := [s!"fatal:{if mode == "" then "forbidden" else mode}{k}", s!"fatal:errors{errors}"] ++
              (match jint o "nilErrors" with | .ok n => if n > 0 then ["fatal:nil-error-event"] else [] | _ => []),
            region := region }
 
